@@ -44,6 +44,9 @@ def run(replay=None):
             V.notes.append("TLC: Refines counterexample (machine vs ideal disagree outside the open deviation classes): " + r.cex[:500])
         recs += r.records
     T.judge(V, recs, C.seed())
+    # code -> spec: every parse the repository's own DIP tests perform, validated against machine and ideal
+    from . import dip_tracer as DT
+    ntr, rtr = DT.judge_testsuite(C, V, wd)
     devs = {}
     nontrivial = set()
     for r in recs:
@@ -53,7 +56,7 @@ def run(replay=None):
             nontrivial.add(json.dumps(r["text"]))
     V.cov.update({
         "states": sum(r.distinct for r in runs), "transitions": sum(r.generated for r in runs),
-        "traces_validated_against_impl": len(recs), "evaluations": len(recs) * 3,
+        "traces_validated_against_impl": len(recs) + ntr, "testsuite_parses_validated": ntr, "evaluations": len(recs) * 3,
         "distinct_nontrivial": len(nontrivial),
         "rule": "every text of <= 4/5 lines over {@case true, @case false, @else, @end, node} x indent 0..2 with consistent indentation, "
                 "every text of <= 3/4 lines additionally with modifications, groups and a second node (TLC, exhaustive), plus random texts of "
